@@ -133,7 +133,8 @@ def run(vc):
               "table, permuted load and bus tables, a load split in two, a load moved to a fused bus, zero-power / out-of-service elements added; "
               "bus voltages and slack power against the reference representation; calculate_voltage_angles='auto' on a 110 kV feeder with a Dy5 "
               "transformer: swapped line ends, high-voltage buses as first rows",
-        script="from replaylib.representations import main_tables\nmain_tables()\n",
+        script="import sys\nfrom replaylib.representations import main_tables, main_relabel\n"
+               "from replaylib import run_all\nrun_all(main_tables, main_relabel)\n",
         known={"C05/auto-voltage-angles-depend-on-line-orientation": r"calculate_voltage_angles='auto': with the second 110 kV line entered with swapped ends"}))
 
 
